@@ -118,3 +118,33 @@ def Ev.sinceReset {α : Type} : List (Ev α) → Bool × Nat
   | _ :: es => let r := sinceReset es; (true, r.2)
 
 end YModel
+
+namespace YModel
+/-!
+## Memo tables keyed by a projection of the argument
+
+What a hand-written `dict` memo, or an `lru_cache` whose key leaves out something the function depends on, amounts to: the table is
+addressed by `k x` instead of `x`.  (Unbounded, never cleared: the least favourable case for staleness.)
+-/
+structure KMemo (κ β : Type) where
+  entries : List (κ × β)
+deriving Repr
+
+namespace KMemo
+variable {α κ β : Type} [DecidableEq κ]
+
+def lookup (m : KMemo κ β) (c : κ) : Option β := (m.entries.find? (fun p => p.1 = c)).map (·.2)
+
+/-- one call: a hit under the key `k x` returns what is stored, a miss computes and stores `f x` -/
+def call (k : α → κ) (f : α → β) (m : KMemo κ β) (x : α) : KMemo κ β × β :=
+  match m.lookup (k x) with
+  | some y => (m, y)
+  | none => (⟨(k x, f x) :: m.entries⟩, f x)
+
+/-- the values returned along a history of calls -/
+def run (k : α → κ) (f : α → β) : KMemo κ β → List α → List β
+  | _, [] => []
+  | m, x :: xs => let r := m.call k f x; r.2 :: run k f r.1 xs
+
+end KMemo
+end YModel
